@@ -224,6 +224,72 @@ func c18Run(w *W) {
 			}
 			w.Delivery++
 		}
+		if pre > 0 && dd > 0 && dd <= time.Second && w.Choose(simrt.SProg, 2) == 0 {
+			// the socket then sits idle for longer than the deadline: the next
+			// Recv still gets its whole deadline
+			w.Sleep(3 * dd)
+			w.Settle()
+			w.Probe("idle-longer-than-the-deadline-between-recvs")
+		}
+		if mode == "recv-deadline" && dd >= time.Millisecond && peer != nil && peerMode != "leaving" && plainInbound(kind) && !hasContexts(kind) && w.Choose(simrt.SProg, 3) == 0 {
+			// (patterns without contexts: a context takes one Recv at a time)
+			// several goroutines in Recv at the same moment, fewer messages queued
+			// than callers: that many return at once, each of the others at
+			// exactly its deadline
+			extra := w.Choose(simrt.SProg, 3)
+			if extra > qlen+1 {
+				extra = qlen + 1
+			}
+			for i := 0; i < extra; i++ {
+				peer.Inject(inbound(kind, uint32(40+i), fmt.Sprintf("conc%d", i)))
+			}
+			w.Settle()
+			n := extra + 1 + w.Choose(simrt.SProg, 2)
+			t0 := w.Now()
+			var calls []*Call
+			for i := 0; i < n; i++ {
+				calls = append(calls, w.Do(fmt.Sprintf("%s.Recv(concurrent %d)", kind, i), func() (interface{}, error) { return obj.Recv() }))
+			}
+			w.Settle()
+			got := 0
+			for _, c := range calls {
+				if c.Returned() {
+					if c.Err != nil {
+						w.Failf("C18/early", "%s: %d messages queued, %d goroutines in Recv with deadline %v: %s returned %v at its invoke instant", kind, extra, n, dd, c.Label, c.Err)
+						return
+					}
+					got++
+				}
+			}
+			if got != extra {
+				w.Failf("C18/ready-call-blocked", "%s: %d messages queued, %d goroutines in Recv with deadline %v: %d of them returned a message at once", kind, extra, n, dd, got)
+				return
+			}
+			w.Sleep(dd - 1)
+			w.Settle()
+			for _, c := range calls {
+				if c.Returned() && c.Err == mangos.ErrRecvTimeout {
+					w.Failf("C18/early", "%s: %s (deadline %v, invoked at %v) timed out at %v", kind, c.Label, dd, t0, c.RetTime)
+					return
+				}
+			}
+			w.Sleep(1)
+			w.Settle()
+			for _, c := range calls {
+				if !c.Returned() {
+					w.WedgeCheck("C12")
+					w.Failf("C18/late", "%s: %d goroutines were in Recv with deadline %v and %d messages queued; %s, invoked at %v, is still pending at %v", kind, n, dd, extra, c.Label, t0, w.Now())
+					return
+				}
+				if c.Err == mangos.ErrRecvTimeout && c.RetTime != t0+dd {
+					w.Failf("C18/late", "%s: %s (deadline %v, invoked at %v) timed out at %v", kind, c.Label, dd, t0, c.RetTime)
+					return
+				}
+			}
+			w.Delivery += got
+			w.Probe("concurrent-receivers-more-than-messages")
+			return
+		}
 		w.Op("%s Recv with deadline %v (peer %s)", kind, dd, peerMode)
 		during := leave
 		if dd >= time.Millisecond && w.Choose(simrt.SProg, 3) == 0 {
